@@ -1432,7 +1432,7 @@ static void functions_case(uint64_t idx, void *arg)
 int main(int argc, char **argv)
 {
         mc_init(argc, argv, "C10");
-        mc_set_budget(110, 860);        /* deadlines (exhaustive:false beyond); intended run times on 16 free cores are far below */
+        mc_set_budget(300, 860);        /* deadlines (exhaustive:false beyond); intended run times on 16 free cores are far below */
         mc_meta("level", "model_checking");
         mc_meta("technique", "explicit-state BFS over operation histories replayed on a fresh real vbi_cache (cache.c with CACHE_CONSISTENCY/DLIST_CONSISTENCY), canonical state hashing, reference map model + structural audit + allocator ledger after every history; one phase drives the cache through a real vbi_decoder (vbi_decode of Teletext packets, every channel switch path of vbi.c/packet.c)");
         mc_meta("rule", "every history over the phase alphabet up to the depth bound, one per canonical state (lists in order, counters, page descriptors, pointers as ordinals, page bytes abstracted); a state is non-trivial by construction (it is a distinct cache structure); every transition is audited and ends with a full teardown; vbi_cache_hi_subno must lie between the highest cached subpage and the highest ever stored on the current network (0 on a new one) for every page number of the alphabet after every operation");
